@@ -219,4 +219,13 @@ class DocumentationWriter:
             lines.append("Raises:")
             lines.extend(self.section_renderer.render_raises(doc.raises, indent + 4))
         lines.append('"""')
-        return "\n".join(lines)
+        # Spec text must stay inert inside the docstring: a backslash would start an escape sequence
+        # (\x, \N{, \u.. are syntax errors when malformed), three double quotes would end the docstring
+        # early and a NUL byte cannot appear in source code at all.
+        body = [
+            line.replace("\\", "\\\\").replace('"""', '\\"\\"\\"').replace("\x00", "\\x00") for line in lines[1:-1]
+        ]
+        # A body line ending in a double quote would merge with the closing delimiter
+        if body and body[-1].endswith('"'):
+            body[-1] += " "
+        return "\n".join([lines[0], *body, lines[-1]])
